@@ -159,6 +159,8 @@ var verifUnreadableTexts = []string{
 	// a JSON value followed by more text: sources in other formats that happen to start with one, a second document
 	"\"openapi\": \"3.0.0\"\n\"info\":\n  \"title\": \"API\"\n", "3.0: x\n", "2023-01-01: release notes\n", "true: yes\n", "null\n---\ntitle: API\n",
 	"{\"@graph\": []} {\"@graph\": [{\"@id\": ", "[]\n#%RAML 1.0\ntitle: API\n", "{} garbage", "[]]]]", "{}{}", "{\"@graph\": []}\n{\"@graph\": []}\n", "{},", "{}\x00",
+	// JSON in another encoding: bytes that are not UTF-8 inside a string, in a key, after the document
+	"{\"@id\":\"http://a.ml/x\",\"http://a.ml/p\":\"caf\xe9\"}", "{\"caf\xe9\": 1}", "\"\xff\"", "[\"\xc3\"]", "{}\n\xa0", "{\"a\":\"\xed\xa0\x80\"}",
 }
 
 // VerifC04Texts: every text of the family, through every entry point: an error and no report.
